@@ -96,3 +96,67 @@ def replay_generic(inputs, obl):
     if r['confirmed']:
         return dict(confirmed=False, detail='only the recorded interleaving fails: ' + r['detail'])
     return r
+
+
+def replay_stale_load(inputs, obl):
+    """schedule: get (load L queued) | update A (write W1 queued) | L completes | update B | W2 completes | W1 completes.
+    When every call has returned, the file on disk, the cached contents and the last successful update must agree and the
+    accounting must equal the cached bytes; an update admitted while another write of the same file is in flight breaks that."""
+    import time
+    c, d = _cache()
+    try:
+        with open(os.path.join(d, 'f'), 'wb') as fh:
+            fh.write(b'init')
+        out = {}
+
+        def spawn(key, fn, *a):
+            t = threading.Thread(target=lambda: out.setdefault(key, _call(fn, *a)))
+            t.start()
+            return t
+
+        def wait_tasks(n):
+            t0 = time.time()
+            while len(c.executor.tasks) < n and time.time() - t0 < 5:
+                time.sleep(0.001)
+            return len(c.executor.tasks) >= n
+        t1 = spawn('get', c.get_file, 'f')
+        if not wait_tasks(1):
+            return dict(confirmed=False, detail='load was not submitted')
+        t2 = spawn('upA', c.update_file, 'f', b'AA')
+        if not wait_tasks(2):
+            return dict(confirmed=False, detail='first write was not submitted')
+        c.executor.run_next()                      # the load completes while the write W1 is still queued
+        t3 = spawn('upB', c.update_file, 'f', b'BBBB')
+        admitted = wait_tasks(2)                   # W1 still queued; was a second write admitted next to it?
+        if admitted:
+            f2 = c.executor.tasks.pop(1)           # run W2 first, then W1
+            try:
+                f2[0].set_result(f2[1](*f2[2]))
+            except BaseException as e:
+                f2[0].set_exception(e)
+        while c.executor.tasks:
+            c.executor.run_next()
+        for t in (t1, t2, t3):
+            t.join(5)
+        if any(t.is_alive() for t in (t1, t2, t3)):
+            return dict(confirmed=True, detail='a call did not return')
+        disk = open(os.path.join(d, 'f'), 'rb').read()
+        ent = c.file_futures.get('f')
+        cached = ent[2].result() if ent is not None and ent[2].done() and ent[2].exception() is None else None
+        cur, tot = _acct(c)
+        succ = [k for k in ('upA', 'upB') if out.get(k) is True]
+        problems = []
+        if cached is not None and cached != disk:
+            problems.append(f"disk holds {disk!r} but the cache serves {cached!r}")
+        if ent is not None and cached is not None and not ent[0] and ent[1] != len(cached):
+            problems.append(f"the entry accounts {ent[1]} bytes for {len(cached)}-byte contents")
+        if cur != tot:
+            problems.append(f"current_memory_usage={cur}, cached entries sum to {tot}")
+        if len(succ) == 2 and admitted:
+            problems.append("both updates reported success although the second was submitted while the first write was still in flight")
+        if problems:
+            return dict(confirmed=True, detail="get(f) [load queued]; update(f,'AA') [write queued]; load completes; update(f,'BBBB'); write 2 runs; write 1 runs: "
+                                               + '; '.join(problems[:3]))
+        return dict(confirmed=False, detail=f"disk {disk!r}, cache {cached!r}, successes {succ}: consistent")
+    finally:
+        shutil.rmtree(d, ignore_errors=True)
